@@ -191,7 +191,12 @@ func seqProfile0(prop, tier string) *SeqProfile {
 		g.TimeMode = "mono"
 		return &SeqProfile{Prop: prop, Gen: g, NRandom: tierN(tier, 250, 15000), Module: "TraceAbs.tla", Cfg: "TraceAbs.cfg",
 			Obs:  Obs{Time: true},
-			Hist: func(id int, seed int64) *History { gg := g; gg.IndexCfg = []int{2, 3, 2, 3, 0, 1}[id%6]; return genHistory(id, seed, gg) },
+			Hist: func(id int, seed int64) *History {
+				gg := g
+				gg.IndexCfg = []int{2, 3, 2, 3, 0, 1}[id%6]
+				gg.Epoch0 = id%2 == 1 // half of the histories use times next to the Unix epoch (absolute values smaller than the offsets)
+				return genHistory(id, seed, gg)
+			},
 			Rule: "C10: GetByTime/OffsetByTime at every microsecond from 2 before the first to 2 after the last published time, after every step; times never decrease and contain equal runs.",
 		}
 	case "C12":
